@@ -2,7 +2,7 @@
 use crate::cfg::{chunk_strategy, gcd, rate_pair_strategy, ratio_strategy, window_of, Config, Kernel, Kind};
 use crate::dynres::SampleX;
 use crate::engine::{Aggregate, Outcome, Property, Tier};
-use crate::hist::stream_out;
+use crate::hist::stream_out_sched;
 use crate::num::{db, interp_bound, ls_fit, undb, D_FAR, LEAK_DB, REJ_DB};
 use crate::signal::{Signal, Tone};
 use proptest::prelude::*;
@@ -24,6 +24,9 @@ pub struct Case {
     /// true only in known-finding replays: apply the statement's far-stopband figure in the near zone too
     #[serde(default)]
     pub literal: bool,
+    /// sinc types: cyclic mid-stream set_chunk_size schedule ("every way of chunking the stream")
+    #[serde(default)]
+    pub schedule: Vec<(u8, u16)>,
 }
 
 pub struct C01;
@@ -107,7 +110,10 @@ fn run_t<T: SampleX>(c0: &Case) -> Outcome {
     let l = band.filt as f64;
     let m0 = if is_fft { 3 * cfg.fft_blocks().1 + 10 } else { (2.0 * l * ratio.max(1.0)) as usize + 10 };
     let sig = Signal::Tones { tones: tones.clone() };
-    let y = match stream_out::<T>(&cfg, &sig, m0 + m_out) {
+    if !c0.schedule.is_empty() && kind.is_sinc() {
+        o.class("mid-stream-chunk-size-changes");
+    }
+    let y = match stream_out_sched::<T>(&cfg, &sig, m0 + m_out, &c0.schedule) {
         Ok(y) => y,
         Err(e) => {
             o.fail(format!("stream-error:{}", kind.name()), e);
@@ -296,7 +302,8 @@ impl Property for C01 {
     fn strategy(&self, _tier: Tier) -> BoxedStrategy<Case> {
         let tone = (0.0f64..=1.0, any::<bool>(), 0.05f64..1.0, 0.0f64..6.283).prop_map(|(frac, top, a, ph)| ToneSpec { frac, top, a, ph });
         let cfg = prop_oneof![3 => sinc_fidelity_cfg(), 1 => fft_fidelity_cfg(4096)];
-        (cfg, proptest::collection::vec(tone, 1..=4)).prop_map(|(cfg, tones)| Case { cfg, tones, literal: std::env::var("RV_LITERAL").is_ok() }).boxed()
+        let sched = prop_oneof![3 => Just(vec![]), 1 => proptest::collection::vec((prop_oneof![1 => Just(0u8), 3 => 1u8..4], any::<u16>()), 1..5)];
+        (cfg, proptest::collection::vec(tone, 1..=4), sched).prop_map(|(cfg, tones, schedule)| Case { cfg, tones, literal: std::env::var("RV_LITERAL").is_ok(), schedule }).boxed()
     }
     fn cases(&self, tier: Tier) -> u32 {
         if tier.thorough() {
@@ -314,7 +321,7 @@ impl Property for C01 {
                 let window = ((i * 5 + j) % 6) as u8;
                 let cc: f32 = rubato::calculate_cutoff::<f32>(*sinc_len, window_of(window));
                 let cfg = Config { kind: if (i + j) % 2 == 0 { Kind::SincIn } else { Kind::SincOut }, f32: (i + j) % 3 == 0, ratio: [0.37, 1.0884, 2.9, 0.9187, 11.3][j], chunk: 256 + 37 * i, sinc_len: *sinc_len, window, interp, os: *os, f_cutoff: cc, ..Config::default() };
-                v.push(Case { cfg, tones: vec![ToneSpec { frac: 0.5, top: true, a: 0.8, ph: 0.3 }, ToneSpec { frac: 0.31, top: false, a: 0.4, ph: 2.0 }], literal: false });
+                v.push(Case { cfg, tones: vec![ToneSpec { frac: 0.5, top: true, a: 0.8, ph: 0.3 }, ToneSpec { frac: 0.31, top: false, a: 0.4, ph: 2.0 }], literal: false, schedule: vec![] });
             }
         }
         v
